@@ -1707,7 +1707,7 @@ def value_reps(consts, ty="u16"):
     return sorted(out)
 
 
-def decide_update(ctx, ob, path, where, Tv, Th, bname, xname, cnames, onames, fixed_b=None):
+def decide_update(ctx, ob, path, where, Tv, Th, bname, xname, cnames, onames, fixed_b=None, top_sentinel=None):
     """One best-so-far update, decided for *every* (best so far, candidate value): Tv / Th are the new value and the new
     remembered hand as DAGs over the atoms bname (best so far), xname (value of the ranked candidate), cnames (the
     candidate's cards) and onames (the remembered hand's cards).  The values may only be used as ordered values; the
@@ -1737,6 +1737,12 @@ def decide_update(ctx, ob, path, where, Tv, Th, bname, xname, cnames, onames, fi
         return False
     reps = value_reps(consts)
     breps = reps if fixed_b is None else [fixed_b]
+    if top_sentinel is not None:
+        # the running best starts at a value no hand can exceed ("nothing yet" is the top, not 0): the best so far then
+        # ranges over 1..=top; and the properties that use this rule rank real cards, whose candidates are never 0 —
+        # on that domain `smallest non-zero` is the plain minimum, which is what is required of the update
+        breps = [v_ for v_ in breps if 1 <= v_ <= top_sentinel]
+        reps = [v_ for v_ in reps if v_ >= 1]
     badv = badw = badz = badm = None
     cand_v = [300 + j for j in range(5)]
     old_v = [200 + j for j in range(5)]
@@ -1908,7 +1914,9 @@ def bestof_loop(ctx, path, n, rule, need):
     if l_hand is None:
         # the remembered hand could not be identified: the witness clauses cannot be checked, the value clauses can
         ob("witness-follows-value", short(path), False, "UNCERTIFIED: cannot identify the remembered best hand among the loop-carried state", where)
-    ob("initial-best", short(path), frame0[l_best][0] == "c" and frame0[l_best][1] == 0, "the running best value does not start at 0 (no hand yet)", where)
+    init_ok = frame0[l_best][0] == "c" and (frame0[l_best][1] == 0 or frame0[l_best][1] >= 7462)
+    top_sentinel = frame0[l_best][1] if (init_ok and frame0[l_best][1] != 0) else None
+    ob("initial-best", short(path), init_ok, "the running best value starts neither at 0 nor at a value no hand can exceed (no hand yet)", where)
     # one generic iteration
     s_it, names = sym_state([row])
     n_ob = len(ex.obligations)
@@ -1951,7 +1959,7 @@ def bestof_loop(ctx, path, n, rule, need):
     hand2_x = norm_(hand2) if hand2 is not None else None
     base_env = {"s%d" % i: 100 + i for i in range(n)}
     base_env.update({"p%d" % j: j for j in range(5)})
-    ncases = decide_update(ctx, ob, path, where, best2_x, hand2_x, names[l_best][1], "$x", cnames, batoms)
+    ncases = decide_update(ctx, ob, path, where, best2_x, hand2_x, names[l_best][1], "$x", cnames, batoms, top_sentinel=top_sentinel)
     # candidate slots come from the selected row of the receiver
     okp = cs is not None and len(cs) == 5
     if okp:
@@ -2511,6 +2519,7 @@ def bestof_end_to_end(ctx, path, n, rule, need):
     slotv = {"s%d" % i: 1000 + 37 * ((i * 5) % n) + i for i in range(n)}   # distinct words, scrambled order
     inv = {v: i for i, (k_, v) in enumerate(sorted(slotv.items(), key=lambda kv: int(kv[0][1:])))}
     badv = badw = None
+    zero_rounds = []
     rounds = 40
     for r_ in range(rounds):
         style = r_ % 4
@@ -2535,6 +2544,11 @@ def bestof_end_to_end(ctx, path, n, rule, need):
         out = None
         nz = [v for v in vals.values() if v != 0]
         expv = min(nz) if nz else 0
+        if len(nz) < len(vals):
+            # a candidate of value 0 (a sub-hand that is not five real cards): outside the domain of the properties
+            # that use this fold when the loop keeps the plain minimum from a top sentinel — both readings are recorded
+            zero_rounds.append((r_, gotv, expv, min(vals.values())))
+            continue
         if gotv != expv:
             badv = badv or (r_, gotv, expv)
         if expv != 0 and gotv == expv and "witness-follows-value" in need:
@@ -2543,6 +2557,14 @@ def bestof_end_to_end(ctx, path, n, rule, need):
             if goth not in winners:
                 badw = badw or (r_, goth)
     rep.evals(rounds)
+    # rounds with zero-valued candidates: all of them by the 0-sentinel reading (smallest non-zero), or all of them by the
+    # plain-minimum reading (a loop that starts from a top sentinel) — not a mixture
+    if zero_rounds and badv is None:
+        by_sentinel = all(g_ == e_ for (_r, g_, e_, _m) in zero_rounds)
+        by_min = all(g_ == m_ for (_r, g_, _e, m_) in zero_rounds)
+        if not (by_sentinel or by_min):
+            r0 = next(z for z in zero_rounds if z[1] != z[2])
+            badv = (r0[0], r0[1], r0[2])
     if "keeps-smallest-nonzero" in need:
         rep.ob(rule + ".end-to-end-value", short(path), badv is None, "with seeded candidate values (round %s) the function returns %s, the smallest non-zero candidate value is %s" % (badv or (0, 0, 0)), pdb.where(key))
     if "witness-follows-value" in need:
